@@ -145,7 +145,8 @@ func init() {
 				}
 			}()
 			e.call(fr, pos, a[0], nil)
-			return term.Const(64, ^uint64(0))
+			// returning from main is exit status 0
+			return term.Const(64, 0)
 		},
 		rtPkg + "SetDir": func(e *Engine, _ *frame, _ token.Pos, a []Value) Value {
 			if e.dirs == nil {
